@@ -228,10 +228,10 @@ func (r *Run) Count(quick, thorough int) int {
 		return r.N
 	}
 	if r.Tier == "thorough" {
-		// the thorough tier is meant to finish in minutes per property: at most 10x the quick volume
+		// the thorough tier is meant to finish in minutes per property: at most 4x the quick volume per stream (streams that also widen per-item work reach about 10x)
 		// (all of it is evaluated inside Coq by vm_compute); VERIF_THOROUGH_FULL=1 lifts the cap (soak run)
-		if os.Getenv("VERIF_THOROUGH_FULL") == "" && thorough > 10*quick {
-			return 10 * quick
+		if os.Getenv("VERIF_THOROUGH_FULL") == "" && thorough > 4*quick {
+			return 4 * quick
 		}
 		return thorough
 	}
